@@ -29,6 +29,19 @@
 //                                                            the power-of-two scale: exact integers again)
 //       -> "ok|fail P <closed paths> <open paths> T cnt (depth isHole nChildren <path>)* TO <open paths of the tree run>
 //           A <hex tree.Area()> <hex Area(paths)> S <scale>"
+//   EXT64 ct fr pc rs <pathsS> <pathsO> <pathsC>
+//       the entry points of clipper.h around a PolyTree64 result, each next to the result it has to equal:
+//       -> "ok|fail T <tree> P2P <PolyTreeToPaths64(tree)> FC <CheckPolytreeFullyContainsChildren(tree)>
+//           F <tree of the free BooleanOp(ct, fr, S, C, PolyTree64&)> E <tree of Execute(ct, fr, tree) on a fresh default Clipper64 with S, C>
+//           FP <paths of the free BooleanOp(ct, fr, S, C)> EP <paths of Execute on a fresh default Clipper64>
+//           OS <operator<<(ostream, tree), newlines written as ~>"         <tree> = cnt (depth isHole nChildren <path>)*
+//   EXTD prec ct fr pc rs <pathsS> <pathsO> <pathsC>
+//       the same for ClipperD(prec) / PolyTreeD on the integer-valued input; everything multiplied by the scale (exact integers);
+//       T64 = the tree of Clipper64 on the input multiplied by the scale (what PolyTreeD is the descaled image of)
+//       -> "ok|fail S <scale> T <tree> P2P <PolyTreeToPathsD(tree)> T64 <tree> F <tree> E <tree> FP <paths> EP <paths> OS <text>"
+//   SYN cnt (depth <path>)*cnt
+//       a PolyTree64 built by hand with AddChild (preorder, depth 0 = child of the root)
+//       -> "ok T <tree> P2P <paths> FC <0/1> OS <text>"
 #include "common.h"
 using namespace vfh;
 
@@ -60,6 +73,21 @@ static void put_tree64(const PP& pp, int depth, int& count, std::ostringstream& 
     }
     put_tree64(*ch, depth + 1, count, body, scale);
   }
+}
+
+template <typename TR>
+static std::string ser_tree(const TR& tree, double scale) {
+  std::ostringstream body; int count = 0;
+  put_tree64(tree, 0, count, body, scale);
+  return std::to_string(count) + body.str();
+}
+
+template <typename TR>
+static std::string ser_text(const TR& tree) {
+  std::ostringstream ss; ss << tree;
+  std::string x = ss.str();
+  for (char& ch : x) if (ch == '\n') ch = '~';
+  return x;
 }
 
 static Paths64 rescale(const PathsD& ps, double scale) {
@@ -187,6 +215,53 @@ int main() {
       os << ((ok1 && ok2) ? "ok" : "fail") << " P "; put(os, closed); os << ' '; put(os, open);
       os << " T " << count << body.str() << " TO "; put(os, topen);
       os << " A " << hexd(ta) << ' ' << hexd(pa) << " S " << (long long)scale;
+    } else if (cmd == "EXT64") {
+      int ct = t.i32(), fr = t.i32(); bool pc = t.b(), rs = t.b();
+      Paths64 s = t.paths(), o = t.paths(), cl = t.paths();
+      PolyTree64 tree, ftree, etree; Paths64 topen, fp, ep; bool ok;
+      { Clipper64 c; c.PreserveCollinear(pc); c.ReverseSolution(rs); c.AddSubject(s); c.AddOpenSubject(o); c.AddClip(cl);
+        ok = c.Execute((ClipType)ct, (FillRule)fr, tree, topen); }
+      BooleanOp((ClipType)ct, (FillRule)fr, s, cl, ftree);
+      fp = BooleanOp((ClipType)ct, (FillRule)fr, s, cl);
+      { Clipper64 c; c.AddSubject(s); c.AddClip(cl); ok = c.Execute((ClipType)ct, (FillRule)fr, etree) && ok; }
+      { Clipper64 c; c.AddSubject(s); c.AddClip(cl); ok = c.Execute((ClipType)ct, (FillRule)fr, ep) && ok; }
+      os << (ok ? "ok" : "fail") << " T " << ser_tree(tree, 1.0) << " P2P "; put(os, PolyTreeToPaths64(tree));
+      os << " FC " << (CheckPolytreeFullyContainsChildren(tree) ? 1 : 0);
+      os << " F " << ser_tree(ftree, 1.0) << " E " << ser_tree(etree, 1.0) << " FP "; put(os, fp); os << " EP "; put(os, ep);
+      os << " OS " << ser_text(tree);
+    } else if (cmd == "EXTD") {
+      int prec = t.i32();
+      int ct = t.i32(), fr = t.i32(); bool pc = t.b(), rs = t.b();
+      Paths64 s = t.paths(), o = t.paths(), cl = t.paths();
+      PathsD sd = to_d(s), od = to_d(o), cd = to_d(cl);
+      PolyTreeD tree, ftree, etree; PathsD topen, fp, ep; PolyTree64 t64; Paths64 t64open; bool ok; double scale;
+      { ClipperD c(prec); scale = c.scale_; c.PreserveCollinear(pc); c.ReverseSolution(rs); c.AddSubject(sd); c.AddOpenSubject(od); c.AddClip(cd);
+        ok = c.Execute((ClipType)ct, (FillRule)fr, tree, topen); }
+      { int64_t k = (int64_t)scale;
+        auto mul = [&](Paths64 ps) { for (auto& p : ps) for (auto& v : p) { v.x *= k; v.y *= k; } return ps; };
+        Clipper64 c; c.PreserveCollinear(pc); c.ReverseSolution(rs); c.AddSubject(mul(s)); c.AddOpenSubject(mul(o)); c.AddClip(mul(cl));
+        ok = c.Execute((ClipType)ct, (FillRule)fr, t64, t64open) && ok; }
+      BooleanOp((ClipType)ct, (FillRule)fr, sd, cd, ftree, prec);
+      fp = BooleanOp((ClipType)ct, (FillRule)fr, sd, cd, prec);
+      { ClipperD c(prec); c.AddSubject(sd); c.AddClip(cd); ok = c.Execute((ClipType)ct, (FillRule)fr, etree) && ok; }
+      { ClipperD c(prec); c.AddSubject(sd); c.AddClip(cd); ok = c.Execute((ClipType)ct, (FillRule)fr, ep) && ok; }
+      os << (ok ? "ok" : "fail") << " S " << (long long)scale << " T " << ser_tree(tree, scale) << " P2P "; put(os, rescale(PolyTreeToPathsD(tree), scale));
+      os << " T64 " << ser_tree(t64, 1.0);
+      os << " F " << ser_tree(ftree, scale) << " E " << ser_tree(etree, scale) << " FP "; put(os, rescale(fp, scale)); os << " EP "; put(os, rescale(ep, scale));
+      os << " OS " << ser_text(tree);
+    } else if (cmd == "SYN") {
+      size_t cnt = (size_t)t.i64();
+      PolyTree64 tree;
+      std::vector<PolyPath64*> stack;            // stack[d] = the last node added at depth d
+      for (size_t i = 0; i < cnt; ++i) {
+        size_t d = (size_t)t.i64(); Path64 p = t.path();
+        if (d > stack.size()) throw std::runtime_error("bad depth");
+        PolyPath64* parent = d == 0 ? &tree : stack[d - 1];
+        PolyPath64* nd = parent->AddChild(p);
+        stack.resize(d); stack.push_back(nd);
+      }
+      os << "ok T " << ser_tree(tree, 1.0) << " P2P "; put(os, PolyTreeToPaths64(tree));
+      os << " FC " << (CheckPolytreeFullyContainsChildren(tree) ? 1 : 0) << " OS " << ser_text(tree);
     } else { os << "EXC unknown command " << cmd; }
   });
 }
